@@ -21,14 +21,22 @@ RULE = ("mock mappers over random symmetric multigraph neighbour arrays (rings, 
         "regularization_weights_from(index)); rectangular_neighbors_from on EVERY shape 1..8 x 1..8 (thorough 1..12), also through "
         "Mesh2DRectangular.neighbors; Gaussian / exponential kernel schemes on 2-7 half-lattice points (covariance assembly, inverse "
         "contract, Cholesky); a malformed stream (neighbour index out of range -> IndexError, negative index wrap, asymmetric lists "
-        "where the spec is silent). Non-trivial = at least 3 parameters and 2 neighbour pairs / cross rows; distinct = distinct JSON input.")
+        "where the spec is silent); REAL inversions (aa.Inversion on a real masked Imaging dataset with use_w_tilde False/True, "
+        "InversionImagingMapping / InversionImagingWTilde directly, MockInversion): 1-3 linear objects mixing real MapperRectangular / "
+        "MapperDelaunay (seven schemes + both kernel schemes or None), MockLinearObjFuncList and a harness subclass of "
+        "AbstractLinearObjFuncList (Constant / ConstantZeroth / Zeroth or None), a plain LinearObj (Zeroth or None), every order of every "
+        "list, regularization_matrix and regularization_matrix_reduced (fresh and cached); kernel schemes on EXTENDED meshes (60-150 points, "
+        "spacing 1/2-3/4 of the scale, separations 5.5-18 scale lengths: rectangular blocks and strips, staggered point sets), every covariance "
+        "entry against the profile table, SPD observed with margins. Non-trivial = at least 3 parameters and 2 neighbour pairs / cross rows; distinct = distinct JSON input.")
 EXHAUSTIVE = {"quick": "rectangular_neighbors_from: all shapes 1..8 x 1..8", "thorough": "rectangular_neighbors_from: all shapes 1..12 x 1..12"}
 TRUSTED = ["hand-written Gallina model coq/Model/C07.v (update lists in the code's loop order + scatter), tied to /repo by this "
            "correspondence run, evaluated inside Coq by vm_compute at exact rationals; comparison tolerance 1e-11*(1+|v|) because the "
            "1e-8 ridge is not a dyadic number (all other generated quantities are dyadic, so only the diagonal is inexact)",
            "scipy.linalg.block_diag and numpy.delete modelled by contract; scipy.spatial.Delaunay / find_simplex are oracles whose "
            "outputs (neighbour lists, split-cross tables) are fed to both sides, their symmetry / distinctness being checked per case",
-           "pixel signals (real power **signal_scale, division by the maximum) are taken from the implementation and are an input of the model"]
+           "pixel signals (real power **signal_scale, division by the maximum) are taken from the implementation and are an input of the model",
+           "extended-mesh kernel cases: the returned covariance matrix is handed to Coq as indexes into the list of its distinct values "
+           "(exact; decoded inside Coq); its inverse is checked in Python only (contract to 1e-4, eigenvalue margins)"]
 ASSUMPTIONS = ["real arithmetic (no rounding): theorems over R with the ridge a parameter eps > 0",
                "neighbour lists symmetric and in range (proved for nothing but checked on every generated mesh); split-cross rows have "
                "distinct vertices and at least one vertex",
